@@ -131,6 +131,12 @@ class PolicyDirectoryMonitor(multiprocessing.Process):
                 for p in set(old_p) - set(new_p.keys()):
                     self.disassociate_policy_and_file(p, f)
                     self.restore_or_delete_policy(p)
+                # A file whose policy is currently shadowed by another file is
+                # only present in the policy cache. If it no longer defines a
+                # policy, drop its cache entries so that the stale definition
+                # cannot be restored later.
+                for p in set(self.policy_cache.keys()) - set(new_p.keys()):
+                    self.disassociate_policy_and_file(p, f)
 
     def run(self):
         """
